@@ -250,3 +250,17 @@ Qed.
 Lemma frag_off_sde u f j hn :
   off_sde_guard u f j = sde_resample u f j /\ off_sde_start_guard u = u /\ off_noise_reset_guard hn = hn.
 Proof. repeat split; reflexivity. Qed.
+
+(* ------------------------------------------------------------------ callback stop *)
+(* without a stop request the stop-aware log is the plain log: all theorems about off_collect apply *)
+Theorem off_collect_s_no_stop ak sc : forall os st,
+  off_collect_s ak sc st (map (fun o => (o, false)) os) = off_collect ak sc st os.
+Proof.
+  induction os as [|o r IH]; intros st; [reflexivity|].
+  cbn [map off_collect_s off_collect]. destruct (off_step ak sc st o) as [[st1 t] d]. rewrite IH. reflexivity.
+Qed.
+
+(* a stopped step moves the environment but neither the stored log nor the algorithm's last observation *)
+Theorem off_step_stopped_spec sc st :
+  os_obs (off_step_stopped sc st) = os_obs st /\ os_cur (off_step_stopped sc st) = fst (vstep1 sc (os_cur st)).
+Proof. split; reflexivity. Qed.
